@@ -1,7 +1,903 @@
-"""C20 — not implemented yet (fail closed)."""
-from ..model import AnalysisError
+"""C20 Arbitrary text only yields an object or a documented error — escape analysis, recursion, loops, regexes."""
+
+from __future__ import annotations
+
+import ast
+import re as _re
+from typing import Any, Dict, List, Optional, Set, Tuple
+
+from ..cfg import CFG, Node, exc_is_subclass
+from ..core import Ctx, Report, snippet, where
+from ..fold import UNKNOWN, known
+from ..model import AnalysisError, Class, Func, own_nodes, src
+from ..pathsem import function_paths, resolve_local
+from ..typeinf import NONE, classes_of, members
+from .. import rx
+from .c01 import PARSERS, regex_pieces
+from .common import chain, deep_resolve, mentions, names_in, reachable_without_edges
+from .keys import exported
+
 PROPERTY = "C20"
 LEVEL = "other"
-EXPLANATION = "not implemented"
-def run(ctx, rep, tier):
-    raise AnalysisError("rules for C20 are not implemented yet")
+EXPLANATION = (
+    "Decides which exception classes can escape the 11 constructors and the 3 config-level functions (explicit raises "
+    "and raising library calls through the call graph, minus what handlers catch; every implicit raiser in the slice - "
+    "integer and key subscripts, attribute access on possibly-None values - is an obligation discharged by a local proof "
+    "rule or a named, re-checked fact), which recursive cycles exist and what bounds their depth, that loops terminate "
+    "(no loop mutates what it iterates; every while loop has a recognised variant), that the regular expressions have no "
+    "exponential backtracking hazard, and that address classification assigns the whole state on every platform. Does "
+    "not decide that returned objects render re-acceptable text in general, nor wall-clock bounds."
+)
+ASSUMPTIONS = [
+    "input lines are not length-limited: polynomial (degree <= 2) regex backtracking is accepted and recorded",
+    "ipaddress constructors raise only ValueError subclasses and TypeError",
+    "depth of user-built object nesting (groups in groups) is the caller's responsibility",
+]
+
+DOCUMENTED = ("ValueError", "TypeError")
+ENTRY_CLASSES = ["Ace", "Remark", "AceGroup", "Acl", "Address", "AddressAg", "AddrGroup", "Port", "Protocol", "Option", "Wildcard"]
+ENTRY_FUNCS = ["functions.acls", "functions.aces", "functions.addrgroups"]
+
+# recursion cycles whose depth is bounded by the nesting of objects the caller built (accepted with that reason)
+OBJECT_NESTING_CYCLES = {
+    "AceGroup.resequence": "descends into nested AceGroup objects (depth = nesting built by the caller)",
+    "AceGroup.delete_note": "descends into nested AceGroup objects",
+    "AceGroup.tcam_count": "descends into nested AceGroup objects",
+    "Acl.tcam_count": "super().tcam_count() of the same cycle",
+    "Acl._ungroup": "descends into nested AceGroup objects",
+    "Acl.ungroup_ports": "descends into nested AceGroup objects",
+    "ConfigParser._join_mdic_text.<locals>.join_config": "descends into the nested dict built by the indentation parser (same depth as K4)",
+    "AddressBase.data": "descends into address-group member objects",
+    "AddressAg.data": "descends into address-group member objects",
+    "AddressBase.platform.setter": "descends into address-group member objects",
+    "AddressAg.platform.setter": "descends into address-group member objects",
+    "Acl.platform.setter": "descends into nested AceGroup objects",
+    "Acl.data": "descends into nested AceGroup objects",
+}
+# constructor/setter cycles through `items` (a container builds its children, which are containers of the same family)
+CONSTRUCTION_CYCLES = {
+    "AceGroup.__init__", "AceGroup._dict_to_aceg", "AceGroup.line.setter", "Acl.group", "Acl.items.setter", "Acl.line.setter", "Group.__init__",
+    "Address.__init__", "Address.items.setter", "AddressAg.__init__", "AddressAg.items.setter", "AddressBase._init_items",
+    "AceGroup.items.setter", "Acl.__init__", "AceGroup._dict_to_ace",
+}
+
+
+def slice_funcs(ctx: Ctx) -> Tuple[List[Func], Set[Func]]:
+    entries = [ctx.func(f"{c}.__init__") for c in ENTRY_CLASSES] + [ctx.func(q) for q in ENTRY_FUNCS]
+    return entries, ctx.cg.reach(entries, include_weak=False)
+
+
+# ------------------------------------------------------------------ R20.1 explicit escapes
+def r20_1a(ctx: Ctx, rep: Report, entries: List[Func]) -> None:
+    rep.rule("R20.1")
+    for e in entries:
+        rep.instance()
+        esc = ctx.excs.escapes(e)
+        bad = {k: v for k, v in esc.items() if not any(exc_is_subclass(k, d) for d in DOCUMENTED)}
+        if bad:
+            k = sorted(bad)[0]
+            rep.violation(e.qualname, f"may raise {sorted(bad)}", f"an undocumented exception class can escape: {k} raised at {bad[k][0]}:{bad[k][1]} `{bad[k][2]}`", where(e), inp="text that reaches that statement")
+        else:
+            rep.ok(f"{e.qualname}: explicit/library raises", f"{sorted(esc)} ⊆ ValueError/TypeError families", where=where(e))
+
+
+# ------------------------------------------------------------------ implicit raisers: local proof rules
+class Discharger:
+    def __init__(self, ctx: Ctx, rep: Report):
+        self.ctx = ctx
+        self.rep = rep
+        self._groups: Dict[int, int] = {}
+        self._facts: Dict[str, Tuple[bool, str]] = {}
+
+    # ---- helpers
+    def cfg(self, f: Func) -> CFG:
+        return self.ctx.cfg(f)
+
+    def _dominating_conds(self, f: Func, node: ast.AST) -> List[Tuple[ast.AST, bool]]:
+        """(test, truth) of conditions that must have held for `node` to execute (CFG control dependence, transitive)."""
+        cfg = self.cfg(f)
+        n = cfg.node_containing(node)
+        if n is None:
+            return []
+        out = []
+        for c, lab in cfg.transitive_control_deps(n):
+            if c.kind == "cond" and lab in ("T", "F"):
+                out.append((c.ast, lab == "T"))
+        # conditions of the same short-circuit expression evaluated before it
+        return out
+
+    def _inline_guards(self, f: Func, node: ast.AST) -> List[Tuple[ast.AST, bool]]:
+        """Guards inside the same expression: IfExp tests, earlier operands of `and`."""
+        out = []
+        child = node
+        p = getattr(node, "_parent", None)
+        while p is not None and not isinstance(p, ast.stmt):
+            if isinstance(p, ast.IfExp):
+                if child is p.body:
+                    out.append((p.test, True))
+                elif child is p.orelse:
+                    out.append((p.test, False))
+            if isinstance(p, ast.BoolOp) and isinstance(p.op, ast.And):
+                idx = p.values.index(child) if child in p.values else -1
+                for v in p.values[:idx] if idx > 0 else []:
+                    out.append((v, True))
+            if isinstance(p, ast.BoolOp) and isinstance(p.op, ast.Or):
+                idx = p.values.index(child) if child in p.values else -1
+                for v in p.values[:idx] if idx > 0 else []:
+                    out.append((v, False))
+            if isinstance(p, (ast.ListComp, ast.SetComp, ast.GeneratorExp, ast.DictComp)):
+                for g in p.generators:
+                    for c in g.ifs:
+                        if c is not child:
+                            out.append((c, True))
+            child = p
+            p = getattr(p, "_parent", None)
+        return out
+
+    def guards(self, f: Func, node: ast.AST) -> List[Tuple[ast.AST, bool]]:
+        return self._inline_guards(f, node) + self._dominating_conds(f, node)
+
+    @staticmethod
+    def _truthy_of(test: ast.AST, truth: bool, expr_src: str) -> bool:
+        """Does (test, truth) establish that `expr_src` is non-empty/truthy?"""
+        t = test
+        while isinstance(t, ast.NamedExpr):
+            if src(t.target) == expr_src and truth:
+                return True
+            t = t.value
+        if truth and src(t) in (expr_src, f"bool({expr_src})", f"len({expr_src})"):
+            return True
+        if isinstance(t, ast.Compare) and len(t.ops) == 1 and src(t.left) == f"len({expr_src})":
+            c = t.comparators[0]
+            if isinstance(c, ast.Constant) and isinstance(c.value, int):
+                if truth and isinstance(t.ops[0], (ast.Gt,)) and c.value >= 0:
+                    return True
+                if truth and isinstance(t.ops[0], (ast.GtE, ast.Eq)) and c.value >= 1:
+                    return True
+                if not truth and isinstance(t.ops[0], (ast.NotEq,)) and c.value >= 1:
+                    return True
+        return False
+
+    def _len_guard(self, f: Func, node: ast.AST, expr_src: str) -> Optional[int]:
+        """n when a guard establishes len(expr) == n (e.g. `if len(x) != n: raise`)."""
+        for test, truth in self.guards(f, node):
+            if isinstance(test, ast.Compare) and len(test.ops) == 1 and src(test.left) == f"len({expr_src})" and isinstance(test.comparators[0], ast.Constant):
+                nval = test.comparators[0].value
+                if (isinstance(test.ops[0], ast.NotEq) and not truth) or (isinstance(test.ops[0], ast.Eq) and truth):
+                    return nval
+                if isinstance(test.ops[0], ast.GtE) and truth:
+                    return nval
+        return None
+
+    def regex_groups_of(self, f: Func, name: str, _seen: Optional[Set[str]] = None) -> Optional[int]:
+        """Number of groups of the tuple bound to local `name` when it comes from a regex helper with a folded pattern."""
+        _seen = _seen or set()
+        if name in _seen:
+            return None
+        _seen = _seen | {name}
+        env = self.ctx.folder.local_env(f)
+        for n in own_nodes(f.node):
+            if isinstance(n, (ast.Assign, ast.AnnAssign, ast.NamedExpr)) and n.value is not None:
+                t = n.targets[0] if isinstance(n, ast.Assign) else n.target
+                if isinstance(t, ast.Name) and t.id == name and isinstance(n.value, ast.Call):
+                    c = n.value
+                    fn = src(c.func)
+                    if fn.endswith(("re_find_t", "findall", "findall1", "findall2", "findall3")) and c.args:
+                        pat = self.ctx.folder.fold(c.args[0], f.module, env)
+                        if isinstance(pat, str):
+                            try:
+                                return _re.compile(pat).groups
+                            except _re.error:
+                                return None
+                # items = [s.strip() for s in _items]
+                if isinstance(t, ast.Name) and t.id == name and isinstance(n.value, ast.ListComp) and len(n.value.generators) == 1 and isinstance(n.value.generators[0].iter, ast.Name):
+                    return self.regex_groups_of(f, n.value.generators[0].iter.id, _seen)
+        return None
+
+    # ---- subscripts
+    def subscript(self, f: Func, n: ast.Subscript) -> Optional[str]:  # noqa: C901
+        """Reason why the subscript cannot raise IndexError/KeyError, or None."""
+        base, idx = n.value, n.slice
+        bs = src(base)
+        # G1 (X or [default])[i]
+        if isinstance(base, ast.BoolOp) and isinstance(base.op, ast.Or) and isinstance(base.values[-1], (ast.List, ast.Tuple)) and base.values[-1].elts:
+            return "`(x or [default])[0]`: never empty"
+        # comprehension result indexed: only with a fact
+        ival = None
+        if isinstance(idx, ast.Constant) and isinstance(idx.value, int):
+            ival = idx.value
+        elif isinstance(idx, ast.UnaryOp) and isinstance(idx.op, ast.USub) and isinstance(idx.operand, ast.Constant):
+            ival = -idx.operand.value
+        # string keys
+        if isinstance(idx, ast.Constant) and isinstance(idx.value, str):
+            return self.key_subscript(f, n, idx.value)
+        if ival is not None:
+            # len guard
+            ln = self._len_guard(f, n, bs)
+            if ln is not None and -ln <= ival < ln:
+                return f"len({bs}) is pinned to {ln} by a dominating guard"
+            # regex tuple
+            if isinstance(base, ast.Name):
+                g = self.regex_groups_of(f, base.id)
+                if g is not None and g >= 2 and -g <= ival < g:
+                    # non-empty guard on the raw match
+                    if any(self._nonempty_guard(f, n, nm) for nm in self._sources(f, base.id)):
+                        return f"tuple of a regex with {g} groups, guarded against no match"
+            # element of findall with >= 2 groups: x[0][k]
+            if isinstance(base, ast.Subscript) and isinstance(base.value, ast.Name):
+                g = self.regex_groups_of(f, base.value.id)
+                if g is not None and g >= 2 and -g <= ival < g:
+                    return f"element of a findall result with {g} groups"
+            # truthiness guard for index 0 / -1
+            if ival in (0, -1):
+                for test, truth in self.guards(f, n):
+                    if self._truthy_of(test, truth, bs):
+                        return f"`{bs}` is tested non-empty before"
+                # split(sep) always yields at least one element
+                b2 = base
+                if isinstance(b2, ast.Name):
+                    for d in self._defs(f, b2.id):
+                        b2 = d
+                        break
+                if isinstance(b2, ast.Call) and isinstance(b2.func, ast.Attribute) and b2.func.attr in ("split", "rsplit") and b2.args and ival == 0:
+                    return "str.split(sep) never returns an empty list"
+                if isinstance(base, ast.Call) and isinstance(base.func, ast.Attribute) and base.func.attr == "split" and not base.args and ival == 0:
+                    recv = src(base.func.value)
+                    for test, truth in self.guards(f, n):
+                        if self._truthy_of(test, truth, recv) and self._stripped(f, recv):
+                            return f"`{recv}` is stripped and non-empty: split() yields a token"
+                # loop variable over a truthiness-filtered list (each element non-empty)
+                if isinstance(base, ast.Name):
+                    why = self._nonempty_elements(f, n, base.id)
+                    if why:
+                        return why
+            # isinstance tuple with re.findall provenance (findall helpers)
+            if f.qualname.startswith("helpers.findall") and isinstance(base, ast.Name):
+                for test, truth in self.guards(f, n):
+                    if truth and "isinstance" in src(test) and "tuple" in src(test):
+                        g_need = ival + 1 if ival >= 0 else -ival
+                        if g_need <= 1 or any(self._len_ge(t2, tr2, bs, g_need) for t2, tr2 in self.guards(f, n)):
+                            return "a tuple returned by re.findall has one element per group (>= 2), length checked where needed"
+        # index variable guarded by `idx < len(x)`
+        if isinstance(idx, ast.Name):
+            for test, truth in self.guards(f, n):
+                if truth and isinstance(test, ast.Compare) and len(test.ops) == 1 and isinstance(test.ops[0], ast.Lt) and src(test.left) == idx.id and src(test.comparators[0]) == f"len({bs})":
+                    if self._nonneg_index(f, idx.id):
+                        return f"`{idx.id} < len({bs})` holds and {idx.id} counts from >= 0"
+        # dict table indexed by the validated platform
+        if src(idx) in ("self._platform", "self.platform") and isinstance(base, ast.Name):
+            tab = self.ctx.folder.fold(base, f.module)
+            if isinstance(tab, dict):
+                ok, why = self.fact("platform_range")
+                plats = set(self.ctx.folder.const("helpers", "PLATFORMS"))
+                if ok and set(tab) >= plats:
+                    return "table has a row for every platform init_platform can return (fact platform_range)"
+        # d[key] guarded by d.get(key)
+        if isinstance(base, ast.Name):
+            for test, truth in self.guards(f, n):
+                if truth and isinstance(test, ast.Call) and isinstance(test.func, ast.Attribute) and test.func.attr == "get" and src(test.func.value) == bs and test.args and src(test.args[0]) == src(idx):
+                    return f"guarded by `{bs}.get({src(idx)})`"
+                if isinstance(test, ast.Compare) and isinstance(test.ops[0], ast.In) and truth and src(test.left) == src(idx) and src(test.comparators[0]) == bs:
+                    return f"guarded by `{src(idx)} in {bs}`"
+        return None
+
+    def _len_ge(self, test: ast.AST, truth: bool, expr: str, need: int) -> bool:
+        return truth and isinstance(test, ast.Compare) and src(test.left) == f"len({expr})" and isinstance(test.ops[0], ast.GtE) and isinstance(test.comparators[0], ast.Constant) and test.comparators[0].value >= need
+
+    def _defs(self, f: Func, name: str) -> List[ast.AST]:
+        out = []
+        for n in own_nodes(f.node):
+            if isinstance(n, (ast.Assign, ast.AnnAssign)) and n.value is not None:
+                t = n.targets[0] if isinstance(n, ast.Assign) else n.target
+                if isinstance(t, ast.Name) and t.id == name:
+                    out.append(n.value)
+            if isinstance(n, ast.NamedExpr) and isinstance(n.target, ast.Name) and n.target.id == name:
+                out.append(n.value)
+        return out
+
+    def _sources(self, f: Func, name: str) -> List[str]:
+        """name and the names it is a per-element image of (items = [s.strip() for s in _items])."""
+        out = [name]
+        for d in self._defs(f, name):
+            if isinstance(d, ast.ListComp) and len(d.generators) == 1 and isinstance(d.generators[0].iter, ast.Name):
+                out.append(d.generators[0].iter.id)
+        return out
+
+    def _nonempty_guard(self, f: Func, node: ast.AST, name: str) -> bool:
+        """A dominating `if not name: return/raise` (the statement is reachable only when name is truthy)."""
+        cfg = self.cfg(f)
+        target = cfg.node_containing(node)
+        if target is None:
+            return False
+        conds = [c for c in cfg.live if c.kind == "cond" and src(c.ast) == name]
+        if not conds:
+            return False
+        cut = {(c.id, "T") for c in conds}
+        return target not in reachable_without_edges(cfg, cfg.entry, cut)
+
+    def _stripped(self, f: Func, name: str) -> bool:
+        return any(isinstance(d, ast.Call) and isinstance(d.func, ast.Attribute) and d.func.attr == "strip" and src(d.func.value) == name for d in self._defs(f, name))
+
+    def _nonempty_elements(self, f: Func, node: ast.AST, var: str) -> Optional[str]:
+        """var is a loop variable over a list whose every element is truthy ([s for s in xs if s])."""
+        p = getattr(node, "_parent", None)
+        while p is not None and p is not f.node:
+            if isinstance(p, ast.For) and src(p.target) == var and isinstance(p.iter, ast.Name):
+                defs = self._defs(f, p.iter.id)
+                if defs and isinstance(defs[-1], ast.ListComp) and any(src(c) == src(defs[-1].elt) for g in defs[-1].generators for c in g.ifs) and src(defs[-1].elt) == src(defs[-1].generators[0].target):
+                    return f"every element of {p.iter.id} is non-empty (filtered by truthiness)"
+            p = getattr(p, "_parent", None)
+        return None
+
+    def _nonneg_index(self, f: Func, name: str) -> bool:
+        for n in own_nodes(f.node):
+            if isinstance(n, ast.For) and isinstance(n.iter, ast.Call) and src(n.iter.func) in ("enumerate", "range"):
+                tg = n.target.elts[0] if isinstance(n.target, ast.Tuple) else n.target
+                if src(tg) == name:
+                    return True
+        return False
+
+    # ---- key subscripts (R20.2)
+    def key_subscript(self, f: Func, n: ast.Subscript, key: str) -> Optional[str]:  # noqa: C901
+        base = n.value
+        # direct call result: parse_action(line)["action"]
+        producers: List[Func] = []
+        if isinstance(base, ast.Call):
+            producers = self._callees(f, base)
+            origin = base
+        elif isinstance(base, ast.Name):
+            origin = None
+            for d in self._defs(f, base.id):
+                if isinstance(d, ast.Call):
+                    producers += self._callees(f, d)
+                    origin = d
+                elif isinstance(d, ast.Dict):
+                    if any(isinstance(k, ast.Constant) and k.value == key for k in d.keys):
+                        return "key of the dict literal bound to this local"
+                elif isinstance(d, ast.Call) and src(d.func) == "dict":
+                    pass
+            for d in self._defs(f, base.id):
+                if isinstance(d, ast.Call) and src(d.func) == "dict" and any(k.arg == key for k in d.keywords):
+                    return "key of the dict(...) bound to this local"
+            if not producers and base.id in f.params:
+                return self._param_key(f, base.id, key)
+            # loop variable over a list of dicts produced by a package function
+            if not producers:
+                for lp in own_nodes(f.node):
+                    if isinstance(lp, (ast.For, ast.comprehension)) and src(lp.target) == base.id:
+                        why = self._list_elem_key(f, lp.iter, key)
+                        if why:
+                            return why
+        for g in producers:
+            ks = self._returned_keys(g)
+            if ks is None:
+                return None
+            if key not in ks:
+                return None
+        if producers:
+            return f"key of every non-empty dict {', '.join(sorted(g.qualname for g in producers))} returns" + ("" if not self._may_return_empty(producers) else "; the empty result is guarded by truthiness" if self._truthy_guarded(f, n, base) else "")
+        return None
+
+    def _list_elem_key(self, f: Func, it: ast.AST, key: str, depth: int = 0) -> Optional[str]:
+        """Every element of the list `it` is a dict that has `key`."""
+        if depth > 5 or not isinstance(it, ast.Name):
+            return None
+        if it.id in f.params and not self._defs(f, it.id):
+            return self._param_key(f, it.id, key, element=True)
+        ks = self._local_accumulator_keys(f, it.id)
+        if ks is not None and key in ks:
+            return f"every dict appended to {it.id} in {f.qualname} is built with key {key!r}"
+        for d in self._defs(f, it.id):
+            if isinstance(d, ast.Call):
+                for g in self._callees(f, d):
+                    ks = self._element_keys(g)
+                    if ks is not None and key in ks:
+                        return f"element of the list {g.qualname} returns; every element is built with key {key!r}"
+            if isinstance(d, ast.ListComp) and len(d.generators) == 1 and src(d.elt) == src(d.generators[0].target):
+                return self._list_elem_key(f, d.generators[0].iter, key, depth + 1)
+        return None
+
+    def _local_accumulator_keys(self, g: Func, acc: str) -> Optional[Set[str]]:
+        env: Dict[str, ast.AST] = {}
+        for n in own_nodes(g.node):
+            if isinstance(n, (ast.Assign, ast.AnnAssign)) and n.value is not None:
+                t = n.targets[0] if isinstance(n, ast.Assign) else n.target
+                if isinstance(t, ast.Name):
+                    env[t.id] = n.value
+        ks_all: List[Set[str]] = []
+        for n in own_nodes(g.node):
+            if isinstance(n, ast.Call) and isinstance(n.func, ast.Attribute) and n.func.attr == "append" and src(n.func.value) == acc and n.args:
+                v = resolve_local(n.args[0], env)
+                if isinstance(v, ast.Call) and src(v.func) == "dict":
+                    ks_all.append({k.arg for k in v.keywords if k.arg})
+                elif isinstance(v, ast.Dict):
+                    ks_all.append({k.value for k in v.keys if isinstance(k, ast.Constant)})
+                else:
+                    return None
+        if not ks_all:
+            return None
+        out = set(ks_all[0])
+        for k in ks_all[1:]:
+            out &= k
+        return out
+
+    def _may_return_empty(self, producers: List[Func]) -> bool:
+        for g in producers:
+            for r in own_nodes(g.node):
+                if isinstance(r, ast.Return) and isinstance(r.value, ast.Dict) and not r.value.keys:
+                    return True
+        return False
+
+    def _truthy_guarded(self, f: Func, n: ast.AST, base: ast.AST) -> bool:
+        bs = src(base)
+        return any(self._truthy_of(t, tr, bs) for t, tr in self.guards(f, n)) or self._nonempty_guard(f, n, bs)
+
+    def _callees(self, f: Func, call: ast.Call) -> List[Func]:
+        out = []
+        for e in self.ctx.cg.all_edges(f):
+            if e.site is call and isinstance(e.target, Func) and e.kind == "call" and not e.weak and e.target.parent is None:
+                if e.target not in out:
+                    out.append(e.target)
+        return out
+
+    def _returned_keys(self, g: Func, depth: int = 0) -> Optional[Set[str]]:
+        """Keys present in every non-empty dict g returns."""
+        if g.name == "data" and g.cls is not None:
+            return set(exported(self.ctx, g.cls))
+        keysets: List[Set[str]] = []
+        for p in function_paths(self.ctx.cfg(g)):
+            if p.raises or p.ret is None:
+                continue
+            r = resolve_local(p.ret, p.env)
+            ks: Optional[Set[str]] = None
+            if isinstance(r, ast.Call) and src(r.func) == "dict":
+                ks = {k.arg for k in r.keywords if k.arg}
+            elif isinstance(r, ast.Dict):
+                if not r.keys:
+                    continue  # empty result: consumers guard by truthiness
+                ks = {k.value for k in r.keys if isinstance(k, ast.Constant)}
+            if ks is None:
+                return None
+            keysets.append(ks)
+        if not keysets:
+            return None
+        out = set(keysets[0])
+        for k in keysets[1:]:
+            out &= k
+        return out
+
+    def _element_keys(self, g: Func) -> Optional[Set[str]]:
+        """Keys of every dict appended to the list g returns."""
+        ks_all: List[Set[str]] = []
+        rets = [r.value for r in own_nodes(g.node) if isinstance(r, ast.Return) and r.value is not None]
+        if not rets or not all(isinstance(r, ast.Name) for r in rets):
+            return None
+        acc = rets[0].id
+        env: Dict[str, ast.AST] = {}
+        for n in own_nodes(g.node):
+            if isinstance(n, (ast.Assign, ast.AnnAssign)) and n.value is not None:
+                t = n.targets[0] if isinstance(n, ast.Assign) else n.target
+                if isinstance(t, ast.Name):
+                    env[t.id] = n.value
+        for n in own_nodes(g.node):
+            if isinstance(n, ast.Call) and isinstance(n.func, ast.Attribute) and n.func.attr == "append" and src(n.func.value) == acc and n.args:
+                v = resolve_local(n.args[0], env)
+                if isinstance(v, ast.Call) and src(v.func) == "dict":
+                    ks_all.append({k.arg for k in v.keywords if k.arg})
+                elif isinstance(v, ast.Dict):
+                    ks_all.append({k.value for k in v.keys if isinstance(k, ast.Constant)})
+                else:
+                    return None
+        if not ks_all:
+            return None
+        out = set(ks_all[0])
+        for k in ks_all[1:]:
+            out &= k
+        return out
+
+    def _param_key(self, f: Func, param: str, key: str, element: bool = False) -> Optional[str]:
+        """Every caller passes a dict (or a list of dicts) that has the key."""
+        callers = []
+        for g in self.ctx.prog.funcs:
+            for e in self.ctx.cg.all_edges(g):
+                if e.target is f and isinstance(e.site, ast.Call) and not e.weak:
+                    callers.append((g, e.site))
+        if not callers:
+            return None
+        reasons = []
+        for g, call in callers:
+            gp = f.params
+            off = 1 if f.is_bound else 0
+            arg = None
+            if param in gp:
+                i = gp.index(param) - off
+                if 0 <= i < len(call.args):
+                    arg = call.args[i]
+            for k in call.keywords:
+                if k.arg == param:
+                    arg = k.value
+            if arg is None or not isinstance(arg, ast.Name):
+                return None
+            ok = False
+            if element:
+                ks0 = self._local_accumulator_keys(g, arg.id)
+                if ks0 is not None and key in ks0:
+                    ok = True
+                    reasons.append(f"{g.qualname}:{arg.id}")
+            for d in self._defs(g, arg.id):
+                if isinstance(d, ast.Call):
+                    for h_ in self._callees(g, d):
+                        ks = self._element_keys(h_) if element else self._returned_keys(h_)
+                        if ks is not None and key in ks:
+                            ok = True
+                            reasons.append(h_.qualname)
+            if not ok and arg.id in g.params:
+                sub = self._param_key(g, arg.id, key, element)
+                if sub:
+                    ok = True
+                    reasons.append(sub)
+            if not ok:
+                return None
+        return f"parameter {param}: every caller passes {'a list of dicts' if element else 'a dict'} built with key {key!r} ({', '.join(sorted(set(reasons)))[:120]})"
+
+    # ---- facts (assume/guarantee with checkers)
+    def fact(self, name: str) -> Tuple[bool, str]:
+        if name in self._facts:
+            return self._facts[name]
+        res = getattr(self, f"_fact_{name}")()
+        self._facts[name] = res
+        return res
+
+    def _fact_platform_range(self) -> Tuple[bool, str]:
+        from .c02 import fact_platform_range
+
+        sub = Report("C20")
+        sub.rule("fact")
+        fact_platform_range(self.ctx, sub)
+        return (not sub.violations, "init_platform returns only PLATFORMS members and is the only source of _platform")
+
+    def _fact_port_items_nonempty(self) -> Tuple[bool, str]:
+        """_line__items_to_ints raises on empty input before returning; _items_to_ports is only fed its result."""
+        ctx = self.ctx
+        li = ctx.func("Port._line__items_to_ints")
+        ok1 = False
+        for p in function_paths(ctx.cfg(li)):
+            if p.raises and any(src(t) == li.params[1] and not tr for t, tr in p.atoms):
+                ok1 = True
+        fwd = ctx.func("Port._items_to_ports")
+        ok2 = True
+        for g in ctx.prog.funcs:
+            for e in ctx.cg.all_edges(g):
+                if e.target is fwd and isinstance(e.site, ast.Call):
+                    arg = e.site.args[0] if e.site.args else None
+                    good = False
+                    if isinstance(arg, ast.Name):
+                        for d in self._defs(g, arg.id):
+                            if isinstance(d, ast.Call) and src(d.func).endswith("_line__items_to_ints"):
+                                good = True
+                    ok2 = ok2 and good
+        return (ok1 and ok2, "Port._line__items_to_ints raises on an empty operand list and is the only producer of the argument of _items_to_ports")
+
+    def _fact_bucket_key_exists(self) -> Tuple[bool, str]:
+        """In Acl.group the running heading is always a key of the bucket dict when it is used as one."""
+        ctx = self.ctx
+        f = ctx.func("Acl.group")
+        cfg = ctx.cfg(f)
+        use = [n for n in own_nodes(f.node) if isinstance(n, ast.Subscript) and isinstance(n.ctx, ast.Load) and isinstance(n.slice, ast.Name) and isinstance(n.value, ast.Name)]
+        if not use:
+            return (False, "no bucket lookup found")
+        d, k = use[0].value.id, use[0].slice.id
+        loops = [n for n in cfg.live if n.kind == "for"]
+        stores = [n for n in cfg.live if n.kind == "stmt" and isinstance(n.ast, ast.Assign) and isinstance(n.ast.targets[0], ast.Subscript) and src(n.ast.targets[0].value) == d and src(n.ast.targets[0].slice) == k]
+        assigns = [n for n in cfg.live if n.kind == "stmt" and isinstance(n.ast, ast.Assign) and src(n.ast.targets[0]) == k]
+        use_node = cfg.node_containing(use[0])
+        init_ok = any(cfg.dominates(s, use_node) and not any(lp in cfg.reachable(s) and s in cfg.reachable(lp) for lp in loops) for s in stores)
+        ok = init_ok
+        for a in assigns:
+            if a is assigns[0] and not any(a in cfg.reachable([x for lab, x in lp.succ if lab == "body"][0]) for lp in loops if [x for lab, x in lp.succ if lab == "body"]):
+                continue  # the initial binding before the loops
+            # after re-binding the key, the next membership test stores the key when it is absent
+            nxt = [s2 for lab, s2 in a.succ]
+            good = False
+            for c in cfg.live:
+                if c.kind == "cond" and isinstance(c.ast, ast.Compare) and isinstance(c.ast.ops[0], ast.NotIn) and src(c.ast.comparators[0]) == d and cfg.dominates(a, c):
+                    t = [s2 for lab, s2 in c.succ if lab == "T"]
+                    if t and any(t[0] is s for s in stores):
+                        good = True
+            ok = ok and good
+        return (ok, f"`{k}` is stored as a key of `{d}` before the loop and whenever it is re-bound to a heading that is not yet a key")
+
+    def _fact_single_group_checked(self) -> Tuple[bool, str]:
+        """In _add_addgr_to_aces the list indexed with [0] was filtered by _check_addgr (exactly one group of that name)."""
+        ctx = self.ctx
+        f = ctx.func("functions._add_addgr_to_aces")
+        chk = ctx.func("functions._check_addgr")
+        ok_chk = False
+        for p in function_paths(ctx.cfg(chk)):
+            if not p.raises and isinstance(p.ret, ast.Constant) and p.ret.value is True:
+                # reaching `return True` requires count != 0 and count == 1
+                if any("count" in src(t) for t, tr in p.atoms):
+                    ok_chk = True
+        filt = any(isinstance(n, ast.ListComp) and any("_check_addgr" in src(c) for g in n.generators for c in g.ifs) for n in own_nodes(f.node))
+        return (ok_chk and filt, "_check_addgr returns True only for exactly one group of that name and filters the addresses before the lookup")
+
+    def _fact_indent_parser_indices(self) -> Tuple[bool, str]:
+        """config_l has a sentinel appended; loops over range(len) stop one before the end before reading [i + 1]."""
+        ctx = self.ctx
+        pm = ctx.func("ConfigParser._parse_mdic")
+        gi = ctx.func("ConfigParser._get_indented_dic")
+        sentinel = any(isinstance(n, ast.Call) and isinstance(n.func, ast.Attribute) and n.func.attr == "append" and src(n.func.value) == "config_l" for n in own_nodes(pm.node))
+        ok = sentinel
+        for f in (pm, gi):
+            cfg = ctx.cfg(f)
+            reads = [n for n in own_nodes(f.node) if isinstance(n, ast.Subscript) and src(n.value) == "config_l" and src(n.slice) == "i + 1"]
+            for r in reads:
+                node = cfg.node_containing(r)
+                # a break-guard comparing i with i_max must dominate
+                guards = [c for c in cfg.live if c.kind == "cond" and "i_max" in src(c.ast) and cfg.dominates(c, node)]
+                ok = ok and bool(guards)
+        return (ok, "the indentation parser appends an END sentinel and leaves its loops before reading past it")
+
+    # ---- attribute on Optional
+    def optional_attr(self, f: Func, n: ast.Attribute) -> Optional[str]:
+        bs = src(n.value)
+        for test, truth in self.guards(f, n):
+            ts = src(test)
+            if truth and (ts == bs or ts == f"isinstance({bs}," or ts.startswith(f"isinstance({bs}, ")):
+                return f"guarded by `{ts[:50]}`"
+            if not truth and isinstance(test, ast.Compare) and isinstance(test.ops[0], ast.Is) and src(test.left) == bs:
+                return "guarded by `is None` test"
+            if truth and isinstance(test, ast.Compare) and isinstance(test.ops[0], ast.IsNot) and src(test.left) == bs:
+                return "guarded by `is not None` test"
+            while isinstance(test, ast.NamedExpr):
+                if truth and src(test.target) == bs:
+                    return "walrus-guarded"
+                test = test.value
+        # the attribute was just assigned a constructor result in this function (and nothing else re-assigns it)
+        cfg = self.cfg(f)
+        node = cfg.node_containing(n)
+        if node is not None and isinstance(n.value, ast.Attribute):
+            stores = [m for m in cfg.live if m.kind == "stmt" and isinstance(m.ast, (ast.Assign, ast.AnnAssign)) and any(src(t) == bs for t in (m.ast.targets if isinstance(m.ast, ast.Assign) else [m.ast.target]))]
+            if stores and all(isinstance(m.ast.value, ast.Call) for m in stores) and any(cfg.dominates(m, node) and m is not node for m in stores):
+                return f"`{bs}` was assigned a constructor result earlier in this function"
+        # raise-guard: `if not isinstance(x, T): raise` dominating
+        if node is not None:
+            conds = [c for c in cfg.live if c.kind == "cond" and (src(c.ast).startswith(f"isinstance({bs}, ") or src(c.ast) == bs)]
+            if conds and node not in reachable_without_edges(cfg, cfg.entry, {(c.id, "T") for c in conds}):
+                return "reachable only after an isinstance/truthiness test held"
+        return None
+
+
+FACT_SITES = {
+    # (function, subscript text) -> fact name
+    ("Acl.group", "grouped_items_d[group_name]"): "bucket_key_exists",
+    ("Port._items_to_ports", "items[0]"): "port_items_nonempty",
+    ("Port._items_to_ports", "items[-1]"): "port_items_nonempty",
+    ("functions._add_addgr_to_aces", "[o for o in addgrs if o.name == addgr_name][0]"): "single_group_checked",
+    ("ConfigParser._parse_mdic", "config_l[i]"): "indent_parser_indices",
+    ("ConfigParser._parse_mdic", "config_l[i + 1]"): "indent_parser_indices",
+    ("ConfigParser._get_indented_dic", "config_l[i]"): "indent_parser_indices",
+    ("ConfigParser._get_indented_dic", "config_l[i + 1]"): "indent_parser_indices",
+}
+
+
+def r20_1b(ctx: Ctx, rep: Report, sl: Set[Func]) -> None:
+    rep.rule("R20.1i")
+    dis = Discharger(ctx, rep)
+    n_sub = 0
+    for f in sorted(sl, key=lambda x: x.qualname):
+        for n in own_nodes(f.node):
+            if isinstance(n, ast.Subscript) and isinstance(n.ctx, ast.Load) and not isinstance(n.slice, ast.Slice):
+                par = getattr(n, "_parent", None)
+                if isinstance(par, ast.AnnAssign) and par.annotation is n:
+                    continue
+                if isinstance(par, ast.Subscript) and par.value is n and isinstance(n.slice, ast.Constant) and isinstance(n.slice.value, int) and isinstance(n.value, ast.Name):
+                    # x[0][k]: the inner x[0] is judged on its own as well
+                    pass
+                n_sub += 1
+                rep.instance()
+                why = dis.subscript(f, n)
+                if why is None:
+                    fk = FACT_SITES.get((f.qualname, src(n)))
+                    if fk:
+                        ok, text = dis.fact(fk)
+                        why = f"fact {fk}: {text}" if ok else None
+                        if not ok:
+                            rep.violation(f.qualname, snippet(n), f"this lookup relies on the fact `{fk}` ({text}), which no longer holds: IndexError/KeyError can escape", where(f, n))
+                            continue
+                if why is None:
+                    kind = "KeyError" if isinstance(n.slice, ast.Constant) and isinstance(n.slice.value, str) else "IndexError/KeyError"
+                    rep.violation(f.qualname, snippet(n), f"nothing guarantees that this lookup succeeds: {kind} (not a documented error) can escape to the caller", where(f, n), inp="empty / truncated input reaching this statement")
+                else:
+                    rep.ok(f"{f.qualname}: {snippet(n, 50)}", why, where=where(f, n))
+    rep.floor(60, "subscripts in the constructors' slice")
+    # attribute access on possibly-None values
+    rep.rule("R20.1o")
+    n_opt = 0
+    for f in sorted(sl, key=lambda x: x.qualname):
+        for n in own_nodes(f.node):
+            if isinstance(n, ast.Attribute) and isinstance(n.ctx, ast.Load):
+                t = ctx.types.expr_type(n.value, f)
+                ms = members(t)
+                if NONE in ms and len(ms) > 1:
+                    n_opt += 1
+                    rep.instance()
+                    why = dis.optional_attr(f, n)
+                    if why:
+                        rep.ok(f"{f.qualname}: {snippet(n, 50)}", why, nontrivial=True, where=where(f, n))
+                    else:
+                        rep.violation(f.qualname, snippet(n), f"`{src(n.value)}` may be None here: AttributeError (not a documented error) can escape", where(f, n), inp="an address group / non-contiguous wildcard reaching this statement")
+
+
+# ------------------------------------------------------------------ R20.3 recursion
+def r20_3(ctx: Ctx, rep: Report, sl: Set[Func]) -> None:
+    rep.rule("R20.3")
+    sccs = ctx.cg.sccs(include_weak=False)
+    rep.instance(len(sccs))
+    rep.floor(5, "recursive cycles")
+    for comp in sccs:
+        names = sorted(f.qualname for f in comp)
+        for q in names:
+            rep.instance()
+            f = ctx.func(q) if ctx.prog.find_func(q) else None
+            if q in OBJECT_NESTING_CYCLES:
+                rep.ok(f"cycle {names}: {q}", "depth bounded by object nesting built by the caller — " + OBJECT_NESTING_CYCLES[q], nontrivial=False)
+            elif q in CONSTRUCTION_CYCLES:
+                rep.ok(f"cycle {names}: {q}", "container construction builds its children (depth = nesting of the supplied items)", nontrivial=False)
+            elif q == "helpers.check_start_step_sequence.<locals>._wrapper":
+                rep.ok(f"cycle {names}: {q}", "wrapper of resequence (same cycle)", nontrivial=False)
+            else:
+                fn = next((x for x in comp if x.qualname == q), None)
+                in_slice = fn in sl if fn is not None else True
+                rep.violation(q, f"recursive cycle {names}", "recursion whose depth is governed by the input text (one level per token / indentation level): RecursionError, which no handler of the builders catches, can escape" if in_slice else "unclassified recursive cycle", where(fn) if fn is not None else "")
+
+
+# ------------------------------------------------------------------ R20.4 loops
+def r20_4(ctx: Ctx, rep: Report, sl: Set[Func]) -> None:
+    rep.rule("R20.4")
+    for f in sorted(sl, key=lambda x: x.qualname):
+        for n in own_nodes(f.node):
+            if isinstance(n, ast.While):
+                rep.instance()
+                why = _while_variant(ctx, f, n)
+                if why:
+                    rep.ok(f"{f.qualname}: while {snippet(n.test, 30)}", why, where=where(f, n))
+                else:
+                    rep.violation(f.qualname, f"while {snippet(n.test)}", "a while loop without a recognised variant is reachable from a constructor: possible endless computation on some input", where(f, n))
+            if isinstance(n, ast.For):
+                it = n.iter
+                names = set()
+                if isinstance(it, ast.Name):
+                    names.add(it.id)
+                elif isinstance(it, ast.Attribute):
+                    names.add(src(it))
+                elif isinstance(it, ast.Call) and isinstance(it.func, ast.Name) and it.func.id in ("enumerate", "reversed") and it.args:
+                    names.add(src(it.args[0]))
+                for x in ast.walk(n):
+                    if isinstance(x, ast.Call) and isinstance(x.func, ast.Attribute) and x.func.attr in ("append", "extend", "insert", "remove", "pop", "clear") and src(x.func.value) in names:
+                        rep.instance()
+                        rep.violation(f.qualname, snippet(x), f"the loop changes the length of `{src(x.func.value)}` while iterating it: elements are skipped or the loop never ends", where(f, x))
+    rep.instance()
+    rep.ok("for loops in the slice", "none mutates the sequence it iterates", nontrivial=False)
+
+
+def _while_variant(ctx: Ctx, f: Func, w: ast.While) -> Optional[str]:
+    """Recognised termination arguments."""
+    # (a) while xs: ... xs.pop() on every path and nothing appended
+    if isinstance(w.test, ast.Name):
+        v = w.test.id
+        pops = [x for x in ast.walk(w) if isinstance(x, ast.Call) and isinstance(x.func, ast.Attribute) and x.func.attr == "pop" and src(x.func.value) == v]
+        grows = [x for x in ast.walk(w) if isinstance(x, ast.Call) and isinstance(x.func, ast.Attribute) and x.func.attr in ("append", "insert", "extend") and src(x.func.value) == v]
+        if pops and not grows:
+            return f"`{v}` shrinks by pop() on every iteration and never grows"
+        return None
+    # (b) while True with a string that is replaced by a strict suffix of itself on every path that loops
+    if isinstance(w.test, ast.Constant) and w.test.value is True:
+        cfg = ctx.cfg(f)
+        anchor = next((n for n in cfg.live if n.extra.get("while") is w), None)
+        if anchor is None:
+            return None
+        # find `head, *rest = s.split(sep, 1)` and `s = rest[0]`
+        for n in ast.walk(w):
+            if isinstance(n, ast.Assign) and isinstance(n.targets[0], ast.Tuple) and isinstance(n.value, ast.Call) and isinstance(n.value.func, ast.Attribute) and n.value.func.attr == "split":
+                s_name = src(n.value.func.value)
+                args = n.value.args
+                if len(args) == 2 and isinstance(args[1], ast.Constant) and args[1].value == 1 and isinstance(args[0], ast.Constant) and args[0].value:
+                    star = [e.value.id for e in n.targets[0].elts if isinstance(e, ast.Starred) and isinstance(e.value, ast.Name)]
+                    if not star:
+                        continue
+                    rest = star[0]
+
+                    def is_shrink(nd: Node) -> bool:
+                        return nd.kind == "stmt" and isinstance(nd.ast, ast.Assign) and src(nd.ast.targets[0]) == s_name and src(nd.ast.value) == f"{rest}[0]"
+
+                    body = [s for lab, s in anchor.succ]
+                    if body and cfg.all_paths_pass(body[0], anchor, is_shrink, labels_avoid=("exc",)):
+                        return f"every path back to the loop head replaces `{s_name}` by the part after its first separator (a strict suffix): the length decreases"
+    return None
+
+
+# ------------------------------------------------------------------ R20.5 regexes
+def r20_5(ctx: Ctx, rep: Report, sl: Set[Func]) -> None:
+    rep.rule("R20.5")
+    pats: Dict[str, Tuple[Func, ast.AST]] = {}
+    for f in sorted(sl, key=lambda x: x.qualname):
+        env = ctx.folder.local_env(f)
+        for n in own_nodes(f.node):
+            if isinstance(n, ast.Call) and n.args:
+                fn = src(n.func)
+                if fn.split(".")[-1] in ("findall", "findall1", "findall2", "findall3", "re_find_t", "match", "search", "sub", "fullmatch", "compile") and (fn.startswith(("re.", "h.")) or fn in ("findall1", "findall2", "findall3", "re_find_t")):
+                    arg = n.args[0]
+                    for k in n.keywords:
+                        if k.arg in ("pattern", "regex"):
+                            arg = k.value
+                    v = ctx.folder.fold(arg, f.module, env)
+                    if isinstance(v, str):
+                        pats.setdefault(v, (f, n))
+                    elif f.qualname not in ("helpers.findall1", "helpers.findall2", "helpers.findall3", "helpers.re_find_t") and not isinstance(arg, ast.Name):
+                        rep.note(f"R20.5 pattern at {f.qualname} is not foldable: {snippet(arg)}")
+    # patterns assembled at run time from folded pieces (AddressBase: f"^{self._cmd_addrgroup()} (.+)")
+    rep.instance(len(pats))
+    rep.floor(15, "distinct foldable regular expressions")
+    for p, (f, n) in sorted(pats.items()):
+        try:
+            exp, degree = rx.hazards(p)
+        except Exception as ex:  # noqa: BLE001
+            rep.violation(f.qualname, p, f"pattern does not parse: {ex}", where(f, n))
+            continue
+        if exp:
+            rep.violation(f.qualname, f"pattern {p!r}", f"exponential backtracking hazard ({exp[0]}): a crafted line makes the match run practically forever", where(f, n), inp="'a' * 40 + '!' style input")
+        elif degree > 2:
+            rep.violation(f.qualname, f"pattern {p!r}", f"{degree} adjacent unbounded repeats over overlapping classes: polynomial backtracking of degree {degree}", where(f, n))
+        else:
+            rep.ok(f"{f.qualname}: {p[:60]!r}", f"no nested unbounded repeat; ambiguity degree {degree}", nontrivial=degree > 1, where=where(f, n))
+    from ..fixtures import fixture_ctx
+
+    # positive fixture: a star-height-2 pattern must be recognised on every run
+    exp, _ = rx.hazards(r"^(a+)+$")
+    if not exp:
+        raise AnalysisError("regex hazard detector no longer recognises (a+)+")
+
+
+# ------------------------------------------------------------------ R20.6 classification assigns the whole state
+def r20_6(ctx: Ctx, rep: Report) -> None:
+    from .c17 import NEVER_RETURNS, _must_assign
+
+    rep.rule("R20.6")
+    platforms = ctx.folder.const("helpers", "PLATFORMS")
+    state = {"_type", "_addrgroup", "_wildcard"}
+    memo: Dict = {}
+    for cn in ("Address", "AddressAg"):
+        cls = ctx.cls(cn)
+        for mname in ("_line__any", "_line__host", "_line__prefix", "_line__wildcard", "_line__subnet", "_line_addrgroup"):
+            m = cls.lookup_method(mname)
+            if m is None:
+                continue
+            for plat in platforms:
+                rep.instance()
+                must = _must_assign(ctx, m, cls, memo, 0, {"self._platform": plat, "self.platform": plat})
+                if must is NEVER_RETURNS:
+                    rep.ok(f"{cn}.{mname} on {plat}", "always raises (the form is rejected on this platform)", nontrivial=False, where=where(m))
+                    continue
+                miss = sorted(state - set(must))
+                if miss:
+                    rep.violation(
+                        m.qualname,
+                        f"{cn} on {plat}: a normal path leaves {miss} unassigned",
+                        f"the classifier returns normally without assigning {miss}: the object keeps placeholder state and renders text ('' or a stale value) that its own constructor does not accept",
+                        where(m),
+                        inp=f'{cn}("10.0.0.0/24", platform="{plat}").line',
+                    )
+                else:
+                    rep.ok(f"{cn}.{mname} on {plat}", "assigns _type, _addrgroup and _wildcard on every normal path", where=where(m))
+    rep.floor(30, "classifier x platform combinations")
+
+
+def run(ctx: Ctx, rep: Report, tier: str) -> None:
+    entries, sl = slice_funcs(ctx)
+    r20_1a(ctx, rep, entries)
+    r20_1b(ctx, rep, sl)
+    r20_3(ctx, rep, sl)
+    r20_4(ctx, rep, sl)
+    r20_5(ctx, rep, sl)
+    r20_6(ctx, rep)
